@@ -99,268 +99,275 @@ def run(ck):
     R6 = ck.rule('R11.6', "non-events neither lock nor stop: unknown-event errors are re-raised "
                  "without abort; FSM raises EdzedUnknownEvent before any effect", 'M0', 3)
 
-    # ------------------------------------------------------------------ R11.1
-    g2 = ck.cfg(ev.fid, 'M2')
-    writes = nodes_writing_attr(g2, '_event_active')
-    acq = [w for w in writes if is_const(written_value(w, '_event_active'), True)]
-    rel = [w for w in writes if is_const(written_value(w, '_event_active'), False)]
-    other = [w for w in writes if w not in acq and w not in rel]
-    ck.ob(R1, f"{ev.fid} :: acquire/release literals", len(acq) == 1 and bool(rel) and not other,
-          f"{len(acq)} acquire, {len(rel)} release node(s) (incl. finally copies), "
-          f"{len(other)} other writes", ev, acq[0].ast if acq else ev.node)
-    ck.need(R1, acq, "SBlock.event: acquire `self._event_active = True` not found")
-    a = acq[0]
-    check_must_pass(ck, R1, f"{ev.fid} :: release on all exits", ev, g2, a, rel,
-                    [g2.exit, g2.raise_exit], "release of the event guard")
+    with ck.section('R11.1'):
+        # ------------------------------------------------------------------ R11.1
+        g2 = ck.cfg(ev.fid, 'M2')
+        writes = nodes_writing_attr(g2, '_event_active')
+        acq = [w for w in writes if is_const(written_value(w, '_event_active'), True)]
+        rel = [w for w in writes if is_const(written_value(w, '_event_active'), False)]
+        other = [w for w in writes if w not in acq and w not in rel]
+        ck.ob(R1, f"{ev.fid} :: acquire/release literals", len(acq) == 1 and bool(rel) and not other,
+              f"{len(acq)} acquire, {len(rel)} release node(s) (incl. finally copies), "
+              f"{len(other)} other writes", ev, acq[0].ast if acq else ev.node)
+        ck.need(R1, acq, "SBlock.event: acquire `self._event_active = True` not found")
+        a = acq[0]
+        check_must_pass(ck, R1, f"{ev.fid} :: release on all exits", ev, g2, a, rel,
+                        [g2.exit, g2.raise_exit], "release of the event guard")
 
-    # the guard is held while the handler runs: no release can be followed by the dispatch
-    disp = nodes_where(g2, lambda n: any(
-        (call_name(c) == '_event' and recv(c) == 'self') or
-        (isinstance(c.func, ast.Name) and c.func.id == 'handler') for c in node_calls(n)))
-    ck.need(R1, disp, "SBlock.event: the handler dispatch (handler(self, **data) / self._event) "
-            "was not recognised")
-    wit = None
-    for r in rel:
-        for d in disp:
-            if d.id in g2.reachable_from(r):
-                wit = g2.path_avoiding(r, [d], avoid=acq)
-                if wit is not None:
-                    break
-        if wit is not None:
-            break
-    ck.ob(R1, f"{ev.fid} :: guard held during the dispatch", wit is None,
-          "no `_event_active = False` can precede the handler call: the handler always runs with "
-          "the guard set (temporary lifts restore it)" if wit is None else
-          "the guard is cleared on a path that continues to the handler call: the handler runs "
-          "unguarded and a looped-back event is not refused", ev, (wit[0].ast if wit and wit[0].ast
-                                                                  is not None else ev.node),
-          witness=path_witness(g2, wit))
+        # the guard is held while the handler runs: no release can be followed by the dispatch
+        disp = nodes_where(g2, lambda n: any(
+            (call_name(c) == '_event' and recv(c) == 'self') or
+            (isinstance(c.func, ast.Name) and c.func.id == 'handler') for c in node_calls(n)))
+        ck.need(R1, disp, "SBlock.event: the handler dispatch (handler(self, **data) / self._event) "
+                "was not recognised")
+        wit = None
+        for r in rel:
+            for d in disp:
+                if d.id in g2.reachable_from(r):
+                    wit = g2.path_avoiding(r, [d], avoid=acq)
+                    if wit is not None:
+                        break
+            if wit is not None:
+                break
+        ck.ob(R1, f"{ev.fid} :: guard held during the dispatch", wit is None,
+              "no `_event_active = False` can precede the handler call: the handler always runs with "
+              "the guard set (temporary lifts restore it)" if wit is None else
+              "the guard is cleared on a path that continues to the handler call: the handler runs "
+              "unguarded and a looped-back event is not refused", ev, (wit[0].ast if wit and wit[0].ast
+                                                                      is not None else ev.node),
+              witness=path_witness(g2, wit))
 
-    # ------------------------------------------------------------------ R11.2
-    refusal = nodes_where(g2, lambda n: isinstance(n.ast, ast.Raise)
-                          and g2.has_guard(n, 'self._event_active', True), kinds=('stmt',))
-    ok = bool(refusal) and all(r.kinds == {'N:EdzedCircuitError'} for r in refusal)
-    ck.ob(R2, f"{ev.fid} :: refusal", ok,
-          "a second event during handling raises EdzedCircuitError" if ok else
-          "no `raise EdzedCircuitError` under `self._event_active`", ev,
-          refusal[0].ast if refusal else ev.node)
-    ok = g2.has_guard(a, 'self._event_active', False)
-    ck.ob(R2, f"{ev.fid} :: test precedes acquire", ok,
-          "the acquire is dominated by the failed recursion test" if ok else
-          "the flag is acquired without (or before) testing it", ev, a.ast)
-    for r in refusal:
-        bad = None
-        for w in writes:
-            if w.id in g2.reachable_from(r):
-                bad = g2.path_avoiding(r, [w])
-        ck.ob(R2, f"{ev.fid} :: refusal leaves the flag alone", bad is None,
-              "the refusing raise reaches the exit without writing _event_active" if bad is None
-              else "the refusal passes through a write of _event_active (it would unlock the "
-              "outer, still running, handler)", ev, r.ast, witness=path_witness(g2, bad))
+    with ck.section('R11.2'):
+        # ------------------------------------------------------------------ R11.2
+        refusal = nodes_where(g2, lambda n: isinstance(n.ast, ast.Raise)
+                              and g2.has_guard(n, 'self._event_active', True), kinds=('stmt',))
+        ok = bool(refusal) and all(r.kinds == {'N:EdzedCircuitError'} for r in refusal)
+        ck.ob(R2, f"{ev.fid} :: refusal", ok,
+              "a second event during handling raises EdzedCircuitError" if ok else
+              "no `raise EdzedCircuitError` under `self._event_active`", ev,
+              refusal[0].ast if refusal else ev.node)
+        ok = g2.has_guard(a, 'self._event_active', False)
+        ck.ob(R2, f"{ev.fid} :: test precedes acquire", ok,
+              "the acquire is dominated by the failed recursion test" if ok else
+              "the flag is acquired without (or before) testing it", ev, a.ast)
+        for r in refusal:
+            bad = None
+            for w in writes:
+                if w.id in g2.reachable_from(r):
+                    bad = g2.path_avoiding(r, [w])
+            ck.ob(R2, f"{ev.fid} :: refusal leaves the flag alone", bad is None,
+                  "the refusing raise reaches the exit without writing _event_active" if bad is None
+                  else "the refusal passes through a write of _event_active (it would unlock the "
+                  "outer, still running, handler)", ev, r.ast, witness=path_witness(g2, bad))
 
-    # ------------------------------------------------------------------ R11.3
-    ee = prog.classes.get('block:SBlock._enable_event')
-    if ee is None:
-        # the same context manager written without the "@property class" trick:
-        # `class _X: ...` + `_enable_event = property(_X)` in the body of SBlock
-        for st_ in sblock.node.body:
-            if isinstance(st_, ast.Assign) and any(norm(t) == '_enable_event' for t in st_.targets) and \
-                    isinstance(st_.value, ast.Call) and norm(st_.value.func) == 'property' and \
-                    len(st_.value.args) == 1 and isinstance(st_.value.args[0], ast.Name):
-                ee = prog.classes.get(f'block:SBlock.{st_.value.args[0].id}')
-    ck.need(R3, ee is not None, "SBlock._enable_event not found")
-    enter, exit_ = ee.methods.get('__enter__'), ee.methods.get('__exit__')
-    ck.need(R3, enter is not None and exit_ is not None, "_enable_event.__enter__/__exit__ missing")
-    init = sblock.methods.get('__init__')
-    table = {init.fid: 'initial value False', ev.fid: 'acquire/release',
-             enter.fid: 'temporarily cleared', exit_.fid: 'saved value restored'}
-    own(ck, R3, '_event_active', table)
-    ge = ck.cfg(enter.fid, 'M0')
-    saves = nodes_where(ge, lambda n: isinstance(n.ast, ast.Assign) and
-                        norm(n.ast.value).endswith('._event_active'))
-    clears = nodes_writing_attr(ge, '_event_active', base=None)
-    ok = len(saves) == 1 and len(clears) == 1 and ge.dominates(saves[0], clears[0]) and \
-        is_const(written_value(clears[0], '_event_active'), False)
-    saved_attr = norm(saves[0].ast.targets[0]) if saves else None
-    ck.ob(R3, f"{enter.fid} :: save then clear", ok,
-          f"{saved_attr} = <block>._event_active, then cleared" if ok else
-          "__enter__ does not save the flag before clearing it", enter, enter.node)
-    gx = ck.cfg(exit_.fid, 'M0')
-    restores = nodes_writing_attr(gx, '_event_active', base=None)
-    ok = len(restores) == 1 and saved_attr is not None and \
-        expr_is(ck, exit_.fid, 'M0', restores[0], written_value(restores[0], '_event_active'),
-                saved_attr) and \
-        must_pass(gx, gx.entry, restores, [gx.exit]) is None
-    rets = return_nodes(gx)
-    ok = ok and all(r.ast.value is None or is_const(r.ast.value, None) or is_const(r.ast.value, False)
-                    for r in rets)
-    ck.ob(R3, f"{exit_.fid} :: restore", ok,
-          "__exit__ restores the saved value on all paths and does not suppress exceptions" if ok
-          else "__exit__ does not write back the value saved by __enter__ (or returns a true value)",
-          exit_, exit_.node)
-    n_sites = 0
-    for fi in prog.pkg_funcs(include_demo=True):
-        for n in own_nodes(fi.node):
-            if isinstance(n, (ast.With, ast.AsyncWith)) and any(
-                    isinstance(it.context_expr, ast.Attribute) and it.context_expr.attr == '_enable_event'
-                    or '_enable_event' in norm(it.context_expr) for it in n.items):
-                n_sites += 1
-                body_calls = [call_name(s.value) for s in n.body
-                              if isinstance(s, ast.Expr) and isinstance(s.value, ast.Call)]
-                single = len(n.body) == 1 and len(body_calls) == 1
-                key = (fi.fid, body_calls[0] if body_calls else None)
-                ok = single and key in LIFT_TABLE and norm(n.items[0].context_expr) == 'self._enable_event'
-                if ok and key[1] == '_run_cb':
-                    c = n.body[0].value
-                    ok = bool(c.args) and is_const(c.args[0], 'enter')
-                ck.ob(R3, f"{fi.fid} :: with _enable_event: {norm1(n.body[0]) if n.body else ''}", ok,
-                      f"documented exception: {LIFT_TABLE.get(key)}" if ok else
-                      "the recursion guard is lifted at a site that is not one of the three "
-                      "documented exceptions (or around more than the single permitted call)",
-                      fi, n)
-    ck.need(R3, n_sites >= 1, "no `with self._enable_event` site found")
+    with ck.section('R11.3'):
+        # ------------------------------------------------------------------ R11.3
+        ee = prog.classes.get('block:SBlock._enable_event')
+        if ee is None:
+            # the same context manager written without the "@property class" trick:
+            # `class _X: ...` + `_enable_event = property(_X)` in the body of SBlock
+            for st_ in sblock.node.body:
+                if isinstance(st_, ast.Assign) and any(norm(t) == '_enable_event' for t in st_.targets) and \
+                        isinstance(st_.value, ast.Call) and norm(st_.value.func) == 'property' and \
+                        len(st_.value.args) == 1 and isinstance(st_.value.args[0], ast.Name):
+                    ee = prog.classes.get(f'block:SBlock.{st_.value.args[0].id}')
+        ck.need(R3, ee is not None, "SBlock._enable_event not found")
+        enter, exit_ = ee.methods.get('__enter__'), ee.methods.get('__exit__')
+        ck.need(R3, enter is not None and exit_ is not None, "_enable_event.__enter__/__exit__ missing")
+        init = sblock.methods.get('__init__')
+        table = {init.fid: 'initial value False', ev.fid: 'acquire/release',
+                 enter.fid: 'temporarily cleared', exit_.fid: 'saved value restored'}
+        own(ck, R3, '_event_active', table)
+        ge = ck.cfg(enter.fid, 'M0')
+        saves = nodes_where(ge, lambda n: isinstance(n.ast, ast.Assign) and
+                            norm(n.ast.value).endswith('._event_active'))
+        clears = nodes_writing_attr(ge, '_event_active', base=None)
+        ok = len(saves) == 1 and len(clears) == 1 and ge.dominates(saves[0], clears[0]) and \
+            is_const(written_value(clears[0], '_event_active'), False)
+        saved_attr = norm(saves[0].ast.targets[0]) if saves else None
+        ck.ob(R3, f"{enter.fid} :: save then clear", ok,
+              f"{saved_attr} = <block>._event_active, then cleared" if ok else
+              "__enter__ does not save the flag before clearing it", enter, enter.node)
+        gx = ck.cfg(exit_.fid, 'M0')
+        restores = nodes_writing_attr(gx, '_event_active', base=None)
+        ok = len(restores) == 1 and saved_attr is not None and \
+            expr_is(ck, exit_.fid, 'M0', restores[0], written_value(restores[0], '_event_active'),
+                    saved_attr) and \
+            must_pass(gx, gx.entry, restores, [gx.exit]) is None
+        rets = return_nodes(gx)
+        ok = ok and all(r.ast.value is None or is_const(r.ast.value, None) or is_const(r.ast.value, False)
+                        for r in rets)
+        ck.ob(R3, f"{exit_.fid} :: restore", ok,
+              "__exit__ restores the saved value on all paths and does not suppress exceptions" if ok
+              else "__exit__ does not write back the value saved by __enter__ (or returns a true value)",
+              exit_, exit_.node)
+        n_sites = 0
+        for fi in prog.pkg_funcs(include_demo=True):
+            for n in own_nodes(fi.node):
+                if isinstance(n, (ast.With, ast.AsyncWith)) and any(
+                        isinstance(it.context_expr, ast.Attribute) and it.context_expr.attr == '_enable_event'
+                        or '_enable_event' in norm(it.context_expr) for it in n.items):
+                    n_sites += 1
+                    body_calls = [call_name(s.value) for s in n.body
+                                  if isinstance(s, ast.Expr) and isinstance(s.value, ast.Call)]
+                    single = len(n.body) == 1 and len(body_calls) == 1
+                    key = (fi.fid, body_calls[0] if body_calls else None)
+                    ok = single and key in LIFT_TABLE and norm(n.items[0].context_expr) == 'self._enable_event'
+                    if ok and key[1] == '_run_cb':
+                        c = n.body[0].value
+                        ok = bool(c.args) and is_const(c.args[0], 'enter')
+                    ck.ob(R3, f"{fi.fid} :: with _enable_event: {norm1(n.body[0]) if n.body else ''}", ok,
+                          f"documented exception: {LIFT_TABLE.get(key)}" if ok else
+                          "the recursion guard is lifted at a site that is not one of the three "
+                          "documented exceptions (or around more than the single permitted call)",
+                          fi, n)
+        ck.need(R3, n_sites >= 1, "no `with self._enable_event` site found")
 
-    # ------------------------------------------------------------------ R11.4
-    fsm = prog.cls('fsm:FSM')
-    ctx = fsm.methods.get('_ctx_event')
-    ck.need(R4, ctx is not None, "FSM._ctx_event not found")
-    gf = ck.cfg(ctx.fid, 'M2')
-    fw = nodes_writing_attr(gf, '_fsm_event_active')
-    facq = [w for w in fw if is_const(written_value(w, '_fsm_event_active'), True)]
-    frel = [w for w in fw if is_const(written_value(w, '_fsm_event_active'), False)]
-    ck.need(R4, len(facq) == 1, "FSM._ctx_event: acquire of _fsm_event_active not found")
-    check_must_pass(ck, R4, f"{ctx.fid} :: release on all exits", ctx, gf, facq[0], frel,
-                    [gf.exit, gf.raise_exit], "release of the FSM event flag")
-    ok = gf.has_guard(facq[0], 'self._fsm_event_active', False)
-    ck.ob(R4, f"{ctx.fid} :: acquire only when free", ok,
-          "the FSM flag is acquired only when it was clear" if ok else
-          "the FSM flag is acquired although it may be set", ctx, facq[0].ast)
-    g0 = ck.cfg(ctx.fid, 'M0')
-    slot_w = [w for w in nodes_writing_attr(g0, '_next_event')
-              if not is_const(written_value(w, '_next_event'), None)]
-    ok = bool(slot_w) and all(g0.has_guard(w, 'self._fsm_event_active', True) and
-                              g0.has_guard(w, 'self._next_event is not None', False) for w in slot_w)
-    over = nodes_where(g0, lambda n: isinstance(n.ast, ast.Raise) and n.kinds == {'N:EdzedCircuitError'}
-                       and g0.has_guard(n, 'self._next_event is not None', True)
-                       and g0.has_guard(n, 'self._fsm_event_active', True), kinds=('stmt',))
-    ck.ob(R4, f"{ctx.fid} :: single slot", ok and bool(over),
-          "a chained request is stored only while handling and only into an empty slot; a second "
-          "one raises" if ok and over else
-          "the chained-transition slot can be overwritten, or a second request does not raise",
-          ctx, slot_w[0].ast if slot_w else ctx.node)
-    own(ck, R4, '_fsm_event_active', {fsm.methods['__init__'].fid: 'initial False',
-                                      ctx.fid: 'acquire/release'})
-    # cond/exit callbacks outside _enable_event
-    bad = []
-    for n in own_nodes(ctx.node):
-        if isinstance(n, (ast.With,)) and '_enable_event' in norm(n.items[0].context_expr):
-            for c in [x for s in n.body for x in walk_shallow(s) if isinstance(x, ast.Call)]:
-                if call_name(c) == '_run_cb' and c.args and not is_const(c.args[0], 'enter'):
-                    bad.append(c)
-                if call_name(c) in ('_send_events', 'set_output', 'calc_output'):
-                    bad.append(c)
-    ck.ob(R4, f"{ctx.fid} :: callbacks under the guard", not bad,
-          "only entry actions and the timer start run with the guard lifted" if not bad else
-          f"{[norm(b) for b in bad]} run(s) with the recursion guard lifted", ctx,
-          bad[0] if bad else ctx.node)
+    with ck.section('R11.4'):
+        # ------------------------------------------------------------------ R11.4
+        fsm = prog.cls('fsm:FSM')
+        ctx = fsm.methods.get('_ctx_event')
+        ck.need(R4, ctx is not None, "FSM._ctx_event not found")
+        gf = ck.cfg(ctx.fid, 'M2')
+        fw = nodes_writing_attr(gf, '_fsm_event_active')
+        facq = [w for w in fw if is_const(written_value(w, '_fsm_event_active'), True)]
+        frel = [w for w in fw if is_const(written_value(w, '_fsm_event_active'), False)]
+        ck.need(R4, len(facq) == 1, "FSM._ctx_event: acquire of _fsm_event_active not found")
+        check_must_pass(ck, R4, f"{ctx.fid} :: release on all exits", ctx, gf, facq[0], frel,
+                        [gf.exit, gf.raise_exit], "release of the FSM event flag")
+        ok = gf.has_guard(facq[0], 'self._fsm_event_active', False)
+        ck.ob(R4, f"{ctx.fid} :: acquire only when free", ok,
+              "the FSM flag is acquired only when it was clear" if ok else
+              "the FSM flag is acquired although it may be set", ctx, facq[0].ast)
+        g0 = ck.cfg(ctx.fid, 'M0')
+        slot_w = [w for w in nodes_writing_attr(g0, '_next_event')
+                  if not is_const(written_value(w, '_next_event'), None)]
+        ok = bool(slot_w) and all(g0.has_guard(w, 'self._fsm_event_active', True) and
+                                  g0.has_guard(w, 'self._next_event is not None', False) for w in slot_w)
+        over = nodes_where(g0, lambda n: isinstance(n.ast, ast.Raise) and n.kinds == {'N:EdzedCircuitError'}
+                           and g0.has_guard(n, 'self._next_event is not None', True)
+                           and g0.has_guard(n, 'self._fsm_event_active', True), kinds=('stmt',))
+        ck.ob(R4, f"{ctx.fid} :: single slot", ok and bool(over),
+              "a chained request is stored only while handling and only into an empty slot; a second "
+              "one raises" if ok and over else
+              "the chained-transition slot can be overwritten, or a second request does not raise",
+              ctx, slot_w[0].ast if slot_w else ctx.node)
+        own(ck, R4, '_fsm_event_active', {fsm.methods['__init__'].fid: 'initial False',
+                                          ctx.fid: 'acquire/release'})
+        # cond/exit callbacks outside _enable_event
+        bad = []
+        for n in own_nodes(ctx.node):
+            if isinstance(n, (ast.With,)) and '_enable_event' in norm(n.items[0].context_expr):
+                for c in [x for s in n.body for x in walk_shallow(s) if isinstance(x, ast.Call)]:
+                    if call_name(c) == '_run_cb' and c.args and not is_const(c.args[0], 'enter'):
+                        bad.append(c)
+                    if call_name(c) in ('_send_events', 'set_output', 'calc_output'):
+                        bad.append(c)
+        ck.ob(R4, f"{ctx.fid} :: callbacks under the guard", not bad,
+              "only entry actions and the timer start run with the guard lifted" if not bad else
+              f"{[norm(b) for b in bad]} run(s) with the recursion guard lifted", ctx,
+              bad[0] if bad else ctx.node)
 
-    # ------------------------------------------------------------------ R11.5
-    n = 0
-    for fi in prog.pkg_funcs():
-        for c in [x for x in own_nodes(fi.node) if isinstance(x, ast.Call)]:
-            cn = call_name(c)
-            if cn is None or not (cn == '_event' or cn.startswith('_event_')):
-                continue
-            if not isinstance(c.func, ast.Attribute):
-                continue
-            n += 1
-            key = (fi.fid, cn)
-            ok = key in DIRECT_HANDLER_TABLE and recv(c) == 'self'
-            ck.ob(R5, f"{fi.fid} :: {norm(c.func)}()", ok,
-                  f"permitted direct use: {DIRECT_HANDLER_TABLE.get(key)}" if ok else
-                  f"`{norm(c.func)}(...)` calls an event handler directly, bypassing the "
-                  f"recursion guard of event()", fi, c)
-    ck.need(R5, n >= 3, "fewer direct handler uses than confirmed by hand")
-    # dispatch through the handler table happens inside SBlock.event only
-    for fi in prog.pkg_funcs():
-        for x in own_nodes(fi.node):
-            if isinstance(x, ast.Attribute) and x.attr == '_ct_handlers' and isinstance(x.ctx, ast.Load):
-                ok = fi.fid in (ev.fid, 'block:SBlock.__init_subclass__', 'fsm:FSM._build_tables')
-                ck.ob(R5, f"{fi.fid} :: reads _ct_handlers", ok,
-                      "handler table used by the dispatcher / table builders only" if ok else
-                      "the handler table is read outside the dispatcher (possible bypass)", fi, x)
-    definers = sorted(c.qual for c in prog.pkg_classes() if 'event' in c.methods)
-    ok = definers == ['addons:AddonPersistence', 'block:SBlock']
-    ck.ob(R5, "classes defining event()", ok, f"event() is defined by {definers}", None,
-          f"{sblock.module.path}:{sblock.node.lineno}")
-    superchain(ck, R5, 'event', classes={'addons:AddonPersistence'})
-    for fid, _rcv in (('block:Event.send', None), ('block:ExtEvent.send', 'self._dest')):
-        fi = prog.func(fid)
-        g = ck.cfg(fid, 'M0')
-        d = nodes_calling(g, 'event')
-        ok = len(d) == 1
-        ck.ob(R5, f"{fid} :: delivery", ok,
-              "delivers through <dest>.event(...) exactly once" if ok else
-              f"{len(d)} delivery call(s) through event()", fi, fi.node)
-
-    # ------------------------------------------------------------------ R11.6
-    g0 = ck.cfg(ev.fid, 'M1')
-    hs = [n for n in g0.nodes if n.kind == 'handler' and g0.pred[n.id]]
-    unk = [h for h in hs if norm(h.ast.type) == 'EdzedUnknownEvent']
-    ok = len(unk) == 1 and len(unk[0].ast.body) == 1 and isinstance(unk[0].ast.body[0], ast.Raise) \
-        and unk[0].ast.body[0].exc is None
-    gen = [h for h in hs if norm(h.ast.type) == 'Exception']
-    ok = ok and bool(gen) and unk[0].ast.lineno < gen[0].ast.lineno
-    from rules.shared import unknown_event_not_fatal
-    unknown_event_not_fatal(ck, R6, 'unknown event')
-    gc = ck.cfg(ctx.fid, 'M0')
-    unk_r = nodes_where(gc, lambda n: isinstance(n.ast, ast.Raise) and
-                        n.kinds == {'N:EdzedUnknownEvent'}, kinds=('stmt',))
-    forbidden = effect_nodes(gc, attrs_written=('_state', '_next_event', '_active_timer', 'sdata',
-                                                '_fsm_event_active'),
-                             calls=('_run_cb', '_send_events', '_stop_timer', '_start_timer',
-                                    'set_output', 'send'))
-    ck.need(R6, unk_r, "FSM._ctx_event does not raise EdzedUnknownEvent")
-    effect_free_to(ck, R6, f"{ctx.fid} :: unknown event has no effect", ctx, gc, unk_r, forbidden,
-                   "an unknown FSM event is refused before any effect")
-    rep = prog.func('blocklib.sblocks1:Repeat._event')
-    gr = ck.cfg(rep.fid, 'M0')
-    foreign = [r for r in return_nodes(gr) if any('etype' in t and p for t, p in gr.guard_texts(r))]
-    forb = effect_nodes(gr, calls=('set_output', 'send', 'put_nowait'))
-    if foreign:
-        effect_free_to(ck, R6, f"{rep.fid} :: foreign type ignored", rep, gr, foreign, forb,
-                       "Repeat ignores other event types without effect")
-
-    # ------------------------------------------------------------------ R11.7
-    from sa.cfg import handler_types
-    from sa.rulekit import handler_reraises
-    deliver = _may_deliver(prog)
-    ck.need(R7, {'_send_events', 'set_output', 'event', 'send'} <= deliver and '_restore_state' in deliver
-            and 'stop' in deliver, "may-deliver closure lost its known members")
-    n7 = 0
-    CATCHES = ('Exception', 'BaseException', 'EdzedError', 'EdzedCircuitError')
-    for fi in prog.pkg_funcs(include_demo=False):
-        for t in own_nodes(fi.node):
-            if not isinstance(t, ast.Try):
-                continue
-            for h in t.handlers:
-                if h.type is not None and not any(x in CATCHES for x in handler_types(h)):
+    with ck.section('R11.5'):
+        # ------------------------------------------------------------------ R11.5
+        n = 0
+        for fi in prog.pkg_funcs():
+            for c in [x for x in own_nodes(fi.node) if isinstance(x, ast.Call)]:
+                cn = call_name(c)
+                if cn is None or not (cn == '_event' or cn.startswith('_event_')):
                     continue
-                if handler_reraises(fi, h):
+                if not isinstance(c.func, ast.Attribute):
                     continue
-                names = {}
-                for st in t.body:
-                    for x in ast.walk(st):
-                        if isinstance(x, ast.Call) and call_name(x) in deliver:
-                            names.setdefault(call_name(x), x)
-                ht = norm(h.type) if h.type is not None else 'bare'
-                for nm, call in sorted(names.items()):
-                    n7 += 1
-                    ok = (fi.fid, ht, nm) in SWALLOW_TABLE or (fi.fid, ht, '*') in SWALLOW_TABLE
-                    ck.ob(R7, f"{fi.fid} :: except {ht} around {nm}()", ok,
-                          f"designated: {SWALLOW_TABLE.get((fi.fid, ht, nm)) or SWALLOW_TABLE.get((fi.fid, ht, '*'))}"
-                          if ok else
-                          f"`{norm1(call)}` may deliver an event inside a try whose `except {ht}` "
-                          f"does not re-raise: the EdzedCircuitError of a refused (looped-back) "
-                          f"event is swallowed here and never stops the simulation", fi, call)
-    ck.need(R7, n7 >= 3, f"only {n7} swallowing-handler/delivery pairs found (3 confirmed by hand)")
+                n += 1
+                key = (fi.fid, cn)
+                ok = key in DIRECT_HANDLER_TABLE and recv(c) == 'self'
+                ck.ob(R5, f"{fi.fid} :: {norm(c.func)}()", ok,
+                      f"permitted direct use: {DIRECT_HANDLER_TABLE.get(key)}" if ok else
+                      f"`{norm(c.func)}(...)` calls an event handler directly, bypassing the "
+                      f"recursion guard of event()", fi, c)
+        ck.need(R5, n >= 3, "fewer direct handler uses than confirmed by hand")
+        # dispatch through the handler table happens inside SBlock.event only
+        for fi in prog.pkg_funcs():
+            for x in own_nodes(fi.node):
+                if isinstance(x, ast.Attribute) and x.attr == '_ct_handlers' and isinstance(x.ctx, ast.Load):
+                    ok = fi.fid in (ev.fid, 'block:SBlock.__init_subclass__', 'fsm:FSM._build_tables')
+                    ck.ob(R5, f"{fi.fid} :: reads _ct_handlers", ok,
+                          "handler table used by the dispatcher / table builders only" if ok else
+                          "the handler table is read outside the dispatcher (possible bypass)", fi, x)
+        definers = sorted(c.qual for c in prog.pkg_classes() if 'event' in c.methods)
+        ok = definers == ['addons:AddonPersistence', 'block:SBlock']
+        ck.ob(R5, "classes defining event()", ok, f"event() is defined by {definers}", None,
+              f"{sblock.module.path}:{sblock.node.lineno}")
+        superchain(ck, R5, 'event', classes={'addons:AddonPersistence'})
+        for fid, _rcv in (('block:Event.send', None), ('block:ExtEvent.send', 'self._dest')):
+            fi = prog.func(fid)
+            g = ck.cfg(fid, 'M0')
+            d = nodes_calling(g, 'event')
+            ok = len(d) == 1
+            ck.ob(R5, f"{fid} :: delivery", ok,
+                  "delivers through <dest>.event(...) exactly once" if ok else
+                  f"{len(d)} delivery call(s) through event()", fi, fi.node)
+
+    with ck.section('R11.6'):
+        # ------------------------------------------------------------------ R11.6
+        g0 = ck.cfg(ev.fid, 'M1')
+        hs = [n for n in g0.nodes if n.kind == 'handler' and g0.pred[n.id]]
+        unk = [h for h in hs if norm(h.ast.type) == 'EdzedUnknownEvent']
+        ok = len(unk) == 1 and len(unk[0].ast.body) == 1 and isinstance(unk[0].ast.body[0], ast.Raise) \
+            and unk[0].ast.body[0].exc is None
+        gen = [h for h in hs if norm(h.ast.type) == 'Exception']
+        ok = ok and bool(gen) and unk[0].ast.lineno < gen[0].ast.lineno
+        from rules.shared import unknown_event_not_fatal
+        unknown_event_not_fatal(ck, R6, 'unknown event')
+        gc = ck.cfg(ctx.fid, 'M0')
+        unk_r = nodes_where(gc, lambda n: isinstance(n.ast, ast.Raise) and
+                            n.kinds == {'N:EdzedUnknownEvent'}, kinds=('stmt',))
+        forbidden = effect_nodes(gc, attrs_written=('_state', '_next_event', '_active_timer', 'sdata',
+                                                    '_fsm_event_active'),
+                                 calls=('_run_cb', '_send_events', '_stop_timer', '_start_timer',
+                                        'set_output', 'send'))
+        ck.need(R6, unk_r, "FSM._ctx_event does not raise EdzedUnknownEvent")
+        effect_free_to(ck, R6, f"{ctx.fid} :: unknown event has no effect", ctx, gc, unk_r, forbidden,
+                       "an unknown FSM event is refused before any effect")
+        rep = prog.func('blocklib.sblocks1:Repeat._event')
+        gr = ck.cfg(rep.fid, 'M0')
+        foreign = [r for r in return_nodes(gr) if any('etype' in t and p for t, p in gr.guard_texts(r))]
+        forb = effect_nodes(gr, calls=('set_output', 'send', 'put_nowait'))
+        if foreign:
+            effect_free_to(ck, R6, f"{rep.fid} :: foreign type ignored", rep, gr, foreign, forb,
+                           "Repeat ignores other event types without effect")
+
+    with ck.section('R11.7'):
+        # ------------------------------------------------------------------ R11.7
+        from sa.cfg import handler_types
+        from sa.rulekit import handler_reraises
+        deliver = _may_deliver(prog)
+        ck.need(R7, {'_send_events', 'set_output', 'event', 'send'} <= deliver and '_restore_state' in deliver
+                and 'stop' in deliver, "may-deliver closure lost its known members")
+        n7 = 0
+        CATCHES = ('Exception', 'BaseException', 'EdzedError', 'EdzedCircuitError')
+        for fi in prog.pkg_funcs(include_demo=False):
+            for t in own_nodes(fi.node):
+                if not isinstance(t, ast.Try):
+                    continue
+                for h in t.handlers:
+                    if h.type is not None and not any(x in CATCHES for x in handler_types(h)):
+                        continue
+                    if handler_reraises(fi, h):
+                        continue
+                    names = {}
+                    for st in t.body:
+                        for x in ast.walk(st):
+                            if isinstance(x, ast.Call) and call_name(x) in deliver:
+                                names.setdefault(call_name(x), x)
+                    ht = norm(h.type) if h.type is not None else 'bare'
+                    for nm, call in sorted(names.items()):
+                        n7 += 1
+                        ok = (fi.fid, ht, nm) in SWALLOW_TABLE or (fi.fid, ht, '*') in SWALLOW_TABLE
+                        ck.ob(R7, f"{fi.fid} :: except {ht} around {nm}()", ok,
+                              f"designated: {SWALLOW_TABLE.get((fi.fid, ht, nm)) or SWALLOW_TABLE.get((fi.fid, ht, '*'))}"
+                              if ok else
+                              f"`{norm1(call)}` may deliver an event inside a try whose `except {ht}` "
+                              f"does not re-raise: the EdzedCircuitError of a refused (looped-back) "
+                              f"event is swallowed here and never stops the simulation", fi, call)
+        ck.need(R7, n7 >= 3, f"only {n7} swallowing-handler/delivery pairs found (3 confirmed by hand)")
